@@ -4,6 +4,7 @@
    Byte ranges are expressed through the ghost trace: the file equals the concatenation of
    the rendered trace items (second conjunct of C06_structure), so "the bytes before the
    DataEnd record" are `concat (map render_item Tpre)` etc. *)
+From Mcap Require ConstsTie LayoutTie. (* regenerated ties to /repo's source that this property's model relies on *)
 From Coq Require Import List NArith ZArith Bool.
 From Coq.Strings Require Import Byte.
 From Mcap Require Import Bytes GoSem Crc32 Records Writer WriterFactsB.
